@@ -7,7 +7,7 @@
           c06-duplicate-other       : the same outside that class (not a recorded finding)
           c06-offline-never-online  : the first notification sent for a (MAC, address) binding that was
                                       created by a frame says offline (not a recorded finding)
-   t6c <cfg> <t0> <ips> <op>...      : pure discipline (R N pairs, P, C, L; no DHCP offers); observation = (address/online)
+   t6c <cfg> <t0> <ips> <op>...      : discipline without DHCP offers (R N / B N pairs, P, M, C, L); observation = (address/online)
         pairs per unit; column 2 = expectation derived from the changes of the C04 reference model. *)
 From PV Require Import Base.Text Model.Tables Model.TablesShow Model.TablesKnown Spec.HostTracking Spec.HostTrackingNotif.
 Open Scope string_scope.
@@ -65,6 +65,10 @@ Fixpoint run6 (c : cfg) (s : state) (a : ann) (ops : list pop) : list string * (
 
 (* ---- pure discipline ---- *)
 Definition show_pair (x : ip * bool) : string := show_ip (fst x) ++ "/" ++ b01 (snd x).
+(* inside one unit the pairs are compared sorted by address (the order clause is a theorem and is compared on the
+   full contents by kind t6) *)
+Definition sort_pairs (l : list (ip * bool)) : list (ip * bool) := sort_by (fun a b => ip_leb (fst a) (fst b)) l.
+Definition show_pairs (l : list (ip * bool)) : string := join "," (map show_pair (sort_pairs l)).
 Definition pair_of (n : notif) : ip * bool := (nt_ip n, nt_online n).
 
 Fixpoint run6c (c : cfg) (dom : list ip) (s : state) (r : rstate) (ops : list pop) : option (list string * list string) :=
@@ -75,26 +79,33 @@ Fixpoint run6c (c : cfg) (dom : list ip) (s : state) (r : rstate) (ops : list po
       let (s2, em) := step6 c s1 (POp Notify) in
       let (ex, r1) := expect c dom r (UFrame f now) in
       match run6c c dom s2 r1 rest with
-      | Some (x, y) => Some (join "," (map show_pair (map pair_of em)) :: x, join "," (map show_pair ex) :: y)
+      | Some (x, y) => Some (show_pairs (map pair_of em) :: x, show_pairs ex :: y)
       | None => None
       end
   | PPurge now :: rest =>
       let (s1, em) := step6 c s (PPurge now) in
       let (ex, r1) := expect c dom r (UPurge now) in
       match run6c c dom s1 r1 rest with
-      | Some (x, y) => Some (join "," (map show_pair (map pair_of em)) :: x, join "," (map show_pair ex) :: y)
+      | Some (x, y) => Some (show_pairs (map pair_of em) :: x, show_pairs ex :: y)
+      | None => None
+      end
+  | POp (NameUpdate kd k nm) :: rest =>
+      let (s1, em) := step6 c s (POp (NameUpdate kd k nm)) in
+      let (ex, r1) := expect c dom r (UName kd k nm) in
+      match run6c c dom s1 r1 rest with
+      | Some (x, y) => Some (show_pairs (map pair_of em) :: x, show_pairs ex :: y)
       | None => None
       end
   | POp (Capture m) :: rest =>
       let (s1, em) := step6 c s (POp (Capture m)) in
       match run6c c dom s1 r rest with
-      | Some (x, y) => Some (join "," (map show_pair (map pair_of em)) :: x, "" :: y)
+      | Some (x, y) => Some (show_pairs (map pair_of em) :: x, "" :: y)
       | None => None
       end
   | POp (Release m) :: rest =>
       let (s1, em) := step6 c s (POp (Release m)) in
       match run6c c dom s1 r rest with
-      | Some (x, y) => Some (join "," (map show_pair (map pair_of em)) :: x, "" :: y)
+      | Some (x, y) => Some (show_pairs (map pair_of em) :: x, "" :: y)
       | None => None
       end
   | _ => None
